@@ -99,20 +99,22 @@ theorem C20_subgraph_default (g : G) (hwf : g.WF) (loc : List Nat)
 example : ∃ (g : G) (loc : List Nat), g.WF ∧ loc ≠ [] ∧ loc.Nodup ∧ (∀ q ∈ loc, q < g.n) :=
   ⟨⟨4, [(0, 1), (1, 2), (2, 3)]⟩, [3, 1, 2], by simp [G.WF], by decide, by decide, by decide⟩
 
-/-- `get_subgraph` raises exactly in these cases: invalid location (TypeError), wrong size of the
-renumbering, wrong key set, empty location (`min()` of an empty sequence — undocumented), values
-whose minimum is not 0 or maximum not `|loc|-1`, or — because that min/max test is weaker than
-"is a permutation" — two ADJACENT vertices given the same new name (self loop in the constructor). -/
+/-- `get_subgraph` raises exactly when the location is invalid (TypeError) or empty (the constructor
+rejects `CouplingGraph([], 0)`), or the renumbering is not a bijection `loc → [0,|loc|)`: wrong size,
+wrong key set, or values that are not a permutation of `0..|loc|-1` (the check is
+`sorted(values) != list(range(len(location)))` since the fix 494efa1).  In particular no renumbering
+that merges vertices is accepted. -/
 theorem C20_subgraph_errors (g : G) (hwf : g.WF) (loc : List Nat) (ren : List (Nat × Nat)) :
-    g.subgraph loc (some ren) = none ↔
+    (g.subgraph loc (some ren) = none ↔
       (¬ (loc.Nodup ∧ ∀ q ∈ loc, q < g.n))
+      ∨ loc = []
       ∨ ren.length ≠ loc.length
       ∨ ¬ (∀ q, q ∈ ren.map (·.1) ↔ q ∈ loc)
-      ∨ loc = []
-      ∨ ¬ ((∀ v ∈ ren.map (·.2), v ≤ loc.length - 1) ∧ 0 ∈ ren.map (·.2) ∧
-            (loc.length - 1) ∈ ren.map (·.2))
-      ∨ (∃ a ∈ loc, ∃ b ∈ loc, g.hasEdge a b = true ∧ lookup ren a = lookup ren b) :=
-  subgraph_none_iff g hwf loc ren
+      ∨ ¬ (ren.map (·.2)).Perm (List.range loc.length)) ∧
+    ((g.subgraph loc (some ren)).isSome = true ↔
+      loc ≠ [] ∧ loc.Nodup ∧ (∀ q ∈ loc, q < g.n) ∧ (ren.map (·.1)).Perm loc ∧
+        (ren.map (·.2)).Perm (List.range loc.length)) :=
+  ⟨subgraph_none_iff g hwf loc ren, subgraph_isSome_iff g hwf loc ren⟩
 
 /-- With the default renumbering the only error cases are an invalid or empty location. -/
 theorem C20_subgraph_default_errors (g : G) (hwf : g.WF) (loc : List Nat) :
@@ -121,12 +123,11 @@ theorem C20_subgraph_default_errors (g : G) (hwf : g.WF) (loc : List Nat) :
 
 example : ∃ g : G, g.WF := ⟨⟨3, [(0, 1)]⟩, by simp [G.WF]⟩
 
-/-- Witness (replayed on the real code by the harness, known finding
-`subgraph-accepts-non-injective-renumbering`): the documented requirement "the renumbering must be a
-permutation" is not enforced — a non-injective renumbering is accepted and vertices are merged. -/
-theorem C20_subgraph_weak_check_witness :
-    (G.mk 3 [(0, 1)]).subgraph [0, 1, 2] (some [(0, 0), (1, 2), (2, 2)]) = some ⟨3, [(0, 2)]⟩ :=
-  subgraph_weak_check_witness
+/-- The reproducer of the former finding (non-injective renumbering accepted, fixed by 494efa1) is
+rejected. -/
+theorem C20_subgraph_rejects_non_injective :
+    (G.mk 3 [(0, 1)]).subgraph [0, 1, 2] (some [(0, 0), (1, 2), (2, 2)]) = none :=
+  subgraph_rejects_non_injective
 
 /-! ## 3. topology constructors (incl. degenerate sizes) -/
 
@@ -269,9 +270,8 @@ example : ∃ (g : G) (s : Nat) (ps : List (List Nat)), g.WF ∧ s < g.n ∧ g.s
 
 /-- The result (each location as its sorted vertex list, as a duplicate-free collection) consists of
 exactly the `k`-subsets of the vertices that induce a connected subgraph; the call raises iff
-`k = 0` or `k > n`.  (The real code can return one vertex set several times in different orders when
-vertices ≥ 8 occur — known finding `subsize-duplicate-vertex-sets`; the model identifies a location
-with its vertex set.) -/
+`k = 0` or `k > n`.  (Since the fix b592992 the real code builds each location from the sorted vertex
+set, as the model does, so it also lists every vertex set once; the harness checks that.) -/
 theorem C20_subgraphs_of_size (g : G) (k : Nat) :
     (g.subgraphsOfSize k = none ↔ k = 0 ∨ g.n < k) ∧
     ∀ res, g.subgraphsOfSize k = some res →
@@ -324,26 +324,41 @@ theorem C20_qpu_map (g : G) (hwf : g.WF) (remote : List (Nat × Nat)) :
 example : ∃ (g : G) (remote : List (Nat × Nat)), g.WF ∧ g.qpuToQudit remote = [[0, 2], [1]] :=
   ⟨⟨3, [(0, 2), (1, 2)]⟩, [(1, 2)], by simp [G.WF], by decide⟩
 
-/-- Witnesses of the known findings `qudit-to-qpu-map-not-indexed-by-qudit` and
-`qpu-connectivity-uses-misindexed-qudit-map` (the model follows the code as written; `…Spec` is the
-documented meaning): `get_qudit_to_qpu_map` is not indexed by qudit, and `get_qpu_connectivity`
-inherits the error. -/
-theorem C20_qpu_defect_witness :
-    ((G.mk 3 [(0, 2), (1, 2)]).quditToQpuImpl [(1, 2)] = [0, 0, 1] ∧
-     (G.mk 3 [(0, 2), (1, 2)]).quditToQpuSpec [(1, 2)] = [0, 1, 0]) ∧
-    (G.mk 4 [(0, 3), (1, 3), (2, 3)]).qpuConnImpl [(1, 3), (2, 3)] ≠
-      (G.mk 4 [(0, 3), (1, 3), (2, 3)]).qpuConnSpec [(1, 3), (2, 3)] :=
-  ⟨quditToQpu_defect_witness, qpuConn_defect_witness⟩
+/-- `get_qudit_to_qpu_map()` (since the fix 2c665e0) never raises and is the documented map for ALL
+graphs: entry `q` is the index of the unique QPU that holds `q`; two qudits get the same index iff
+they are connected over non-remote edges. -/
+theorem C20_qudit_to_qpu_map (g : G) (hwf : g.WF) (remote : List (Nat × Nat)) :
+    g.quditToQpuImpl? remote = some (g.quditToQpuSpec remote) ∧
+    (∀ q, q < g.n →
+      (g.quditToQpuImpl remote).length = g.n ∧
+      (g.quditToQpuImpl remote).getD q 0 < (g.qpuToQudit remote).length ∧
+      q ∈ (g.qpuToQudit remote).getD ((g.quditToQpuImpl remote).getD q 0) [] ∧
+      ∀ i, q ∈ (g.qpuToQudit remote).getD i [] → i = (g.quditToQpuImpl remote).getD q 0) ∧
+    (∀ a b, a < g.n → b < g.n → (g.qpuOf remote a = g.qpuOf remote b ↔ ReachLocal g remote a b)) :=
+  ⟨quditToQpuImpl?_eq_spec g hwf remote, fun q hq => quditToQpuImpl_get g hwf remote q hq,
+   fun a b ha hb => qpuOf_eq_iff g hwf remote a b ha hb⟩
 
-/-- … while the code is right whenever the QPUs, concatenated, are `0, 1, …, n-1`. -/
-theorem C20_qpu_map_contiguous (g : G) (hwf : g.WF) (remote : List (Nat × Nat))
-    (hc : (g.qpuToQudit remote).flatten = List.range g.n) :
-    g.quditToQpuImpl remote = g.quditToQpuSpec remote :=
-  quditToQpuImpl_eq_spec_of_contiguous g hwf remote hc
+/-- `get_qpu_connectivity()`: one duplicate-free adjacency list per QPU; QPU `b` is listed for QPU
+`a` iff some remote edge joins a qudit of `a` with a qudit of `b` (remote edges are edges of the
+graph, as the constructor enforces). -/
+theorem C20_qpu_connectivity (g : G) (hwf : g.WF) (remote : List (Nat × Nat))
+    (hrem : ∀ e ∈ remote, g.hasEdge e.1 e.2 = true) :
+    (g.qpuConnImpl remote).length = (g.qpuToQudit remote).length ∧
+    (∀ a, ((g.qpuConnImpl remote).getD a []).Nodup) ∧
+    ∀ a b, b ∈ (g.qpuConnImpl remote).getD a [] ↔
+      ∃ e ∈ remote, (g.qpuOf remote e.1 = a ∧ g.qpuOf remote e.2 = b) ∨
+                    (g.qpuOf remote e.1 = b ∧ g.qpuOf remote e.2 = a) :=
+  qpuConnImpl_spec g hwf remote hrem
 
-example : ∃ (g : G) (remote : List (Nat × Nat)), g.WF ∧
-    (g.qpuToQudit remote).flatten = List.range g.n ∧ remote ≠ [] :=
-  ⟨⟨3, [(0, 1), (1, 2)]⟩, [(1, 2)], by simp [G.WF], by decide, by decide⟩
+example : ∃ (g : G) (remote : List (Nat × Nat)), g.WF ∧ remote ≠ [] ∧
+    (∀ e ∈ remote, g.hasEdge e.1 e.2 = true) ∧ g.quditToQpuImpl remote = [0, 1, 2, 0] :=
+  ⟨⟨4, [(0, 3), (1, 3), (2, 3)]⟩, [(1, 3), (2, 3)], by simp [G.WF], by decide, by decide, by decide⟩
+
+/-- The reproducers of the two former findings (fixed by 2c665e0) give the documented values. -/
+theorem C20_qpu_fixed_examples :
+    (G.mk 3 [(0, 2), (1, 2)]).quditToQpuImpl [(1, 2)] = [0, 1, 0] ∧
+    (G.mk 4 [(0, 3), (1, 3), (2, 3)]).qpuConnImpl [(1, 3), (2, 3)] = [[1, 2], [0], [0]] :=
+  quditToQpu_fixed_examples
 
 /-! ## Kronecker clause: index arithmetic of otimes / products / builder applies -/
 
